@@ -432,6 +432,20 @@ impl<'c> VisitMut for Rw<'c> {
                 _ => break,
             }
         }
+        // U1: configured UFCS calls become method calls
+        if let Expr::Call(c) = e {
+            let f = nospace(&c.func.to_token_stream().to_string());
+            if self.cx.unit.ufcs.contains(&f) && !c.args.is_empty() {
+                let recv = c.args[0].clone(); let rest: Vec<Expr> = c.args.iter().skip(1).cloned().collect();
+                let m = ident(f.rsplit("::").next().unwrap());
+                self.cx.fire("U1"); *e = parse_quote!(#recv.#m(#(#rest),*));
+            }
+        }
+        // statics and other expression-level path rules
+        if let Expr::Path(p) = e {
+            let key = nospace(&p.to_token_stream().to_string());
+            for (a, b) in self.cx.unit.exprs.clone() { if a == key { match syn::parse_str::<Expr>(&b) { Ok(n) => { *e = n; self.cx.fire("T2"); } Err(er) => self.cx.err(format!("unit file: expr replacement `{}`: {}", b, er)) } break; } }
+        }
         // T1: UFCS forms of Arc/Weak
         if let Expr::Call(c) = e {
             let f = nospace(&c.func.to_token_stream().to_string());
